@@ -8,7 +8,8 @@ GO=go1.26.8
 S=$1
 V=$(cd "$(dirname "$0")/.." && pwd)
 mkdir -p "$S"
-rsync -a --delete --exclude .git /repo/ "$S/repo/"
+R=${VERIF_REPO:-/repo}
+rsync -a --delete --exclude .git "$R/" "$S/repo/"
 rsync -a --delete --exclude '*.test' "$V/dsim/" "$S/dsim/"
 if [ ! -x "$V/build/instr" ] || [ "$V/instr/cmd/main.go" -nt "$V/build/instr" ]; then
   mkdir -p "$V/build"
@@ -16,7 +17,7 @@ if [ ! -x "$V/build/instr" ] || [ "$V/instr/cmd/main.go" -nt "$V/build/instr" ];
 fi
 YF=${VERIF_YIELDS:-true}
 "$V/build/instr" -root "$S/repo" -verifsync "$V/instr/verifsync" -yields=$YF -sites "$S/sites.json" > "$S/instr.json"
-cp /repo/go.sum "$S/dsim/go.sum"
+cp "$R/go.sum" "$S/dsim/go.sum"
 cd "$S/dsim"
 $GO test -c -tags verif -o "$S/dsim.test" . 
 if [ "${2:-}" = race ]; then
